@@ -211,7 +211,72 @@ theorem gcs_keys_unique (pfx : List Char) (ups : List (Bytes × Bool))
     exact ⟨hlen a (hab.subset (by simp)), hlen b (hab.subset (by simp)), h hab⟩
   exact h2.imp (fun ⟨la, lb, hne⟩ heq => hne (gcs_key_injective pfx _ _ _ _ la lb heq).1)
 
+def drawA' : Bytes := [1, 2, 3, 4, 5, 6, 7, 8, 9, 10, 11, 12, 13, 14, 15, 16]
+def drawB' : Bytes := [2, 2, 3, 4, 5, 6, 7, 8, 9, 10, 11, 12, 13, 14, 15, 16]
+
+/-! ### Uploads while the entropy source fails -/
+
+/-- **no_key_without_randomness**: an upload whose entropy read failed writes to no key at all
+(it fails); it never falls back to a fixed or predictable key. -/
+theorem no_key_without_randomness (pfx : List Char) (z : Bool) :
+    s3Upload pfx none = none ∧ gcsUpload pfx none z = none := ⟨rfl, rfl⟩
+
+/-- **gcs_uploads_unique_with_faults**: any sequence of GCS uploads, some of them hit by an entropy
+failure: the keys actually written are pairwise distinct whenever the successful draws are. -/
+theorem gcs_uploads_unique_with_faults (pfx : List Char) (ups : List (Option Bytes × Bool))
+    (hlen : ∀ u ∈ ups, ∀ x, u.1 = some x → x.length = 16)
+    (h : (ups.filterMap (·.1)).Nodup) :
+    (ups.filterMap fun u => gcsUpload pfx u.1 u.2).Nodup := by
+  induction ups with
+  | nil => simp
+  | cons u rest ih =>
+    have hrest : ∀ v ∈ rest, ∀ x, v.1 = some x → x.length = 16 :=
+      fun v hv => hlen v (by simp [hv])
+    obtain ⟨d, z⟩ := u
+    cases d with
+    | none =>
+      simp only [List.filterMap_cons, gcsUpload] at h ⊢
+      exact ih hrest h
+    | some x =>
+      simp only [List.filterMap_cons, gcsUpload, List.nodup_cons] at h ⊢
+      refine ⟨?_, ih hrest h.2⟩
+      intro hmem
+      rw [List.mem_filterMap] at hmem
+      obtain ⟨v, hv, hk⟩ := hmem
+      obtain ⟨d', z'⟩ := v
+      cases d' with
+      | none => simp [gcsUpload] at hk
+      | some y =>
+        simp only [gcsUpload, Option.some.injEq] at hk
+        have hx := hlen (some x, z) (by simp) x rfl
+        have hy := hrest (some y, z') hv y rfl
+        have := (gcs_key_injective pfx y x z' z hy hx hk).1
+        apply h.1
+        rw [List.mem_filterMap]
+        exact ⟨(some y, z'), hv, by simp [this]⟩
+
+/-- The same for S3 (distinctness in the 122 free bits). -/
+theorem s3_uploads_unique_with_faults (pfx : List Char) (ups : List (Option Bytes))
+    (h : ((ups.filterMap id).map freeBits).Nodup) :
+    (ups.filterMap (s3Upload pfx)).Nodup := by
+  have e : ∀ l : List (Option Bytes), l.filterMap (s3Upload pfx) = (l.filterMap id).map (s3Key pfx) := by
+    intro l
+    induction l with
+    | nil => rfl
+    | cons u rest ih =>
+      cases u with
+      | none =>
+        have h0 : (none :: rest).filterMap (s3Upload pfx) = rest.filterMap (s3Upload pfx) := by
+          simp [List.filterMap_cons, s3Upload]
+        rw [h0, ih]; simp
+      | some d => simp [s3Upload, ih]
+  rw [e ups]
+  exact s3_keys_unique pfx _ h
+
 /-! ### Non-vacuity, and the finding the repair removed -/
+
+example : [some drawA', none, some drawB', none].filterMap (s3Upload []) = [s3Key [] drawA', s3Key [] drawB'] := rfl
+
 
 def drawA : Bytes := [0xde, 0xad, 0xbe, 0xef, 1, 2, 0xff, 4, 0x05, 6, 7, 8, 9, 10, 11, 12]
 def drawB : Bytes := [0xde, 0xad, 0xbe, 0xef, 1, 2, 0xfe, 4, 0x05, 6, 7, 8, 9, 10, 11, 12]
